@@ -154,7 +154,7 @@ def grid(flavors, ns, allocs):
     return [(f, n, a) for f in flavors for n in ns for a in allocs]
 
 
-W1_NS = {"quick": (0, 2, 3), "thorough": (0, 1, 2, 3, 5)}
+W1_NS = {"quick": (0, 1, 2, 3), "thorough": (0, 1, 2, 3, 4, 5)}
 
 
 BUILD_ONLY = False
